@@ -347,6 +347,120 @@ theorem C05_union (sess : Session) (over : Bool) (f : Obj) (F Rt T' : Tree) (bod
       intro _ _
       simp [gtype_encode_root T' hT, hvalid]
 
+/-! ### every other rewrite of a root group: targeted appends -/
+
+/-- rewriting a root group of a valid file into the encoding of ANY well-formed rooted tree with valid node bodies keeps
+    the file valid (the general step behind `C05_union`) -/
+theorem C05_replace_root (sess : Session) (f : Obj) (name : String) (T' : Tree)
+    (hv : validFile DT sess f = true) (hT : T'.rootedWF CT DT = true) (hTp : T'.allInfo infoOK = true) :
+    validFile DT sess (f.setKids (areplace name (encode T') f.kids)) = true := by
+  have hTwf : T'.wf CT DT = true := by
+    simp only [Tree.rootedWF, Bool.and_eq_true] at hT; exact hT.1.1
+  have hvalid := validGroup_encode (ct := CT) (dt := DT) T' hTwf hTp
+  cases f with
+  | dataset a v => simp [validFile] at hv
+  | group a kids =>
+    simp only [validFile, Bool.and_eq_true, Obj.setKids, Obj.kids] at hv ⊢
+    refine ⟨⟨hv.1.1, ?_⟩, ?_⟩
+    · have : (areplace name (encode T') kids).isEmpty = kids.isEmpty := by
+        cases kids with
+        | nil => rfl
+        | cons kv l => obtain ⟨k, w⟩ := kv; simp only [areplace]; split <;> rfl
+      rw [this]; exact hv.1.2
+    · apply all_areplace _ _ _ _ hv.2
+      intro _ _
+      simp [gtype_encode_root T' hT, hvalid]
+
+theorem allInfoKids_replaceKid (P : NodeInfo → Bool) (n : String) (t' : Tree) : ∀ (kids : List Tree),
+    allInfoKids P kids = true → t'.allInfo P = true → allInfoKids P (replaceKid n t' kids) = true
+  | [], _, _ => by simp [replaceKid, allInfoKids]
+  | k :: ks, h, ht => by
+    simp only [allInfoKids, Bool.and_eq_true] at h
+    simp only [replaceKid]
+    split
+    · simp only [allInfoKids, Bool.and_eq_true]; exact ⟨ht, h.2⟩
+    · simp only [allInfoKids, Bool.and_eq_true]; exact ⟨h.1, allInfoKids_replaceKid P n t' ks h.2 ht⟩
+
+theorem allInfoKids_find (P : NodeInfo → Bool) (n : String) : ∀ (kids : List Tree) (c : Tree), allInfoKids P kids = true →
+    findKid n kids = some c → c.allInfo P = true
+  | [], _, _, h => by simp [findKid] at h
+  | k :: ks, c, ha, h => by
+    simp only [allInfoKids, Bool.and_eq_true] at ha
+    simp only [findKid] at h
+    split at h
+    · cases h; exact ha.1
+    · exact allInfoKids_find P n ks c ha.2 h
+
+/-- replacing a subtree by one whose nodes are all fine leaves all nodes fine -/
+theorem allInfo_replaceAt (P : NodeInfo → Bool) : ∀ (p : List String) (F S' : Tree), F.allInfo P = true →
+    S'.allInfo P = true → (F.replaceAt p S').allInfo P = true
+  | [], _, _, _, h => by simpa [Tree.replaceAt] using h
+  | n :: p, .mk i kids, S', hF, hS => by
+    simp only [Tree.allInfo, Bool.and_eq_true] at hF
+    simp only [Tree.replaceAt]
+    cases hk : findKid n kids with
+    | none => simp only [Tree.allInfo, Bool.and_eq_true]; exact hF
+    | some c =>
+      simp only [Tree.allInfo, Bool.and_eq_true]
+      exact ⟨hF.1, allInfoKids_replaceKid P n _ kids hF.2
+        (allInfo_replaceAt P p c S' (allInfoKids_find P n kids c hF.2 hk) hS)⟩
+
+theorem allInfoKids_append (P : NodeInfo → Bool) : ∀ (a b : List Tree), allInfoKids P (a ++ b) = (allInfoKids P a && allInfoKids P b)
+  | [], b => by simp [allInfoKids]
+  | x :: xs, b => by simp [allInfoKids, allInfoKids_append P xs b, Bool.and_assoc]
+
+theorem allInfo_addKid (P : NodeInfo → Bool) (Pt D : Tree) (h1 : Pt.allInfo P = true) (h2 : D.allInfo P = true) :
+    (Pt.addKid D).allInfo P = true := by
+  cases Pt with
+  | mk i kids =>
+    simp only [Tree.allInfo, Bool.and_eq_true] at h1
+    simp only [Tree.addKid, Tree.info_mk, Tree.kids_mk, Tree.allInfo, allInfoKids_append, allInfoKids, Bool.and_eq_true, Bool.and_true]
+    exact ⟨h1.1, h1.2, h2⟩
+
+theorem rootedWF_replaceAt (F S' : Tree) (n : String) (p : List String) (hF : F.rootedWF CT DT = true)
+    (hw : (F.replaceAt (n :: p) S').wf CT DT = true) : (F.replaceAt (n :: p) S').rootedWF CT DT = true := by
+  simp only [Tree.rootedWF, Bool.and_eq_true, beq_iff_eq] at hF ⊢
+  rw [Tree.replaceAt_info]
+  exact ⟨⟨hw, hF.1.2⟩, hF.2⟩
+
+/-- C05 after a targeted append of a new branch (`C09_target_new_branch`, parent below the root): the file is still a
+    well-formed EMD 1.0 file -/
+theorem C05_target_new_branch (sess : Session) (over : Bool) (f : Obj) (F Rt P D : Tree) (body' : List (String × Obj))
+    (n0 : String) (q0 : List String) (m : String)
+    (hv : validFile DT sess f = true)
+    (hFok : F.allInfo infoOK = true) (hRok : Rt.allInfo infoOK = true)
+    (hmdR : (mdEntries Rt.info).all (fun kv => mdEntryOK kv.2) = true)
+    (hF : F.rootedWF CT DT = true) (hR : Rt.rootedWF CT DT = true) (hname : Rt.name = F.name)
+    (hf : alookup F.name f.kids = some (encode F)) (hroot : (rootGroups f).contains F.name = true)
+    (hmdname : "metadatabundle" ∉ names F.kids)
+    (hmd : mdBody over F.info.body (mdEntries Rt.info) = .ok body')
+    (hP : (withBody F body').at (n0 :: q0) = some P) (hD : Rt.at ((n0 :: q0) ++ [m]) = some D)
+    (hnew : m ∉ names P.kids) (hbody : m ∉ akeys P.info.body) :
+    ∃ f', appendInto DT f Rt ((n0 :: q0) ++ [m]) over .yes none = .ok f' ∧ validFile DT sess f' = true := by
+  obtain ⟨hap, hwf⟩ := C09_target_new_branch over f F Rt P D body' (n0 :: q0) m hF hR hname hf hroot hmdname hmd hP hD hnew hbody
+  refine ⟨_, hap, ?_⟩
+  -- the root with its merged body is still a valid root body, every node of the new tree has a valid body
+  have hFroot : F.info.gtype = "root" := by
+    simp only [Tree.rootedWF, Bool.and_eq_true, beq_iff_eq] at hF; exact hF.2
+  have hF1ok : (withBody F body').allInfo infoOK = true := by
+    cases F with
+    | mk i k =>
+      simp only [Tree.allInfo, Bool.and_eq_true] at hFok
+      simp only [withBody, Tree.info_mk, Tree.kids_mk, Tree.allInfo, Bool.and_eq_true]
+      refine ⟨?_, hFok.2⟩
+      simp only [Tree.info_mk] at hFroot hmd
+      have := hFok.1
+      simp only [infoOK, hFroot] at this ⊢
+      exact mdBody_ok over _ _ _ this hmdR hmd
+  have hPok : P.allInfo infoOK = true := allInfo_at infoOK (n0 :: q0) (withBody F body') P hF1ok hP
+  have hDok : D.allInfo infoOK = true := allInfo_at infoOK _ Rt D hRok hD
+  have hall := allInfo_replaceAt infoOK (n0 :: q0) (withBody F body') (P.addKid D) hF1ok (allInfo_addKid infoOK P D hPok hDok)
+  have hF1r : (withBody F body').rootedWF CT DT = true := by
+    simp only [Tree.rootedWF, Bool.and_eq_true, beq_iff_eq] at hF ⊢
+    obtain ⟨hw1, _⟩ := rootMd_encode over F Rt.info body' hF.1.1 hmdname hmd
+    exact ⟨⟨hw1, by cases F; exact hF.1.2⟩, by cases F; exact hF.2⟩
+  exact C05_replace_root sess f F.name _ hv (rootedWF_replaceAt (withBody F body') (P.addKid D) n0 q0 hF1r hwf) hall
+
 -- non-vacuity: the C09 example trees have valid bodies, and the files the model writes for them validate
 example : exF.allInfo infoOK = true ∧ exR.allInfo infoOK = true := by decide
 example : validFile DT {} (fileOf {} "u" exF) = true := by decide
